@@ -18,11 +18,11 @@ func init() {
 		Cases: func(tier string) int {
 			switch tier {
 			case "thorough":
-				return 150000
+				return 250000
 			case "race":
 				return 4000
 			}
-			return 12000
+			return 50000
 		},
 		Run:            c06Run,
 		Floor:          func(tier string) int { return 1500 },
